@@ -17,6 +17,7 @@ func init() {
 			c.run("C15-R3", "PAIR: descriptor typestate of the archive reader and writer", c15R3)
 			c.run("C15-R4", "GUARD-DOM/WHO-CALLS: writer state machine", c15R4)
 			c.run("C15-R5", "WHO-CALLS: entries are created through the checked create path", c15R5)
+			c.run("C15-S1", "shared with C09-V: the entry-name validator refuses exactly the names that are not a single path element (any other name of the tree is accepted)", c09Validators)
 			c.run("C15-R6", "PAIR (shared with C01-R6): open files do not accumulate over the per-file loops", c01R6)
 		})
 }
